@@ -1,6 +1,14 @@
 #[cfg(feature = "with_plain")]
 use crate::authoring::*;
 use crate::grid::ntv2::Ntv2Grid;
+#[cfg(geodesy_verif)]
+use crate::verif_seam::Mutex;
+#[cfg(geodesy_verif)]
+use std::{
+    path::PathBuf,
+    sync::{Arc, OnceLock},
+};
+#[cfg(not(geodesy_verif))]
 use std::{
     path::PathBuf,
     sync::{Arc, Mutex, OnceLock},
@@ -80,6 +88,20 @@ impl Plain {
     pub fn clear_grids() {
         if let Some(grids) = GRIDS.get() {
             grids.lock().unwrap().0.clear();
+        }
+    }
+
+    /// Verification hook: bring the process wide grid cache back to its
+    /// pristine state (empty and not poisoned)
+    #[cfg(geodesy_verif)]
+    pub fn verif_reset_grids() {
+        if let Some(grids) = GRIDS.get() {
+            grids.clear_poison();
+            match grids.lock() {
+                Ok(mut guard) => guard.0.clear(),
+                Err(poisoned) => poisoned.into_inner().0.clear(),
+            }
+            grids.clear_poison();
         }
     }
 }
